@@ -37,6 +37,7 @@ EXTRA = [
      ["poly", {}]],
     ["online", {}, [["naive", {"strategy": "last"}], ["naive", {"strategy": "mean", "window_length": 3}]]],
     ["reduce", {"strategy": "recursive", "window_length": 4, "reg": "tsf"}],
+    ["ensemble", {"aggfunc": "mean", "n_jobs": 2}, [["naive", {"strategy": "last"}], ["poly", {"degree": 1}], ["naive", {"strategy": "drift"}]]],
 ]
 
 
@@ -57,6 +58,29 @@ def cases(tier, seed):
 def _vals_close(a, b):
     a, b = np.asarray(a, dtype=float), np.asarray(b, dtype=float)
     return a.shape == b.shape and bool(np.allclose(a, b, rtol=1e-7, atol=1e-7 * (1.0 + float(np.max(np.abs(b))) if b.size else 1.0), equal_nan=True))
+
+
+def _domain_exit(f, fharg):
+    """True when a NaN pipeline forecast is forced by mathematics: the final forecaster's forecast is finite, but lies outside the
+    domain of the inverse Box-Cox map (lambda * z + 1 <= 0), e.g. a linear meta-learner extrapolating below zero in the transformed
+    scale.  No finite value could be returned there.  (Overflow of exp / power is not exempted.)"""
+    steps = getattr(f, "steps_", None)
+    if not steps:
+        return False
+    try:
+        z = steps[-1][1].predict(fharg)
+        if not np.all(np.isfinite(np.asarray(z, dtype=float))):
+            return False
+        for _, t in reversed(steps[:-1]):
+            inner = getattr(t, "transformer_", t)
+            z2 = t.inverse_transform(z) if hasattr(t, "inverse_transform") else z
+            if not np.all(np.isfinite(np.asarray(z2, dtype=float))):
+                lam = getattr(inner, "lambda_", None)
+                return type(inner).__name__ == "BoxCoxTransformer" and lam is not None and bool(np.any(float(lam) * np.asarray(z, dtype=float) + 1.0 <= 0.0))
+            z = z2
+    except Exception:  # noqa
+        return False
+    return False
 
 
 def run_case(case, ctx):
@@ -91,8 +115,12 @@ def run_case(case, ctx):
               "predict did not return one value per requested step", n=len(p), steps=len(fh))
     ctx.check("predict.index", [int(v) for v in p.index] == exp_idx, "predict:index-not-cutoff-plus-fh:" + spec[0],
               "relative horizon: forecast not labelled cutoff + step", got=[int(v) for v in p.index], expected=exp_idx)
-    ctx.check("predict.finite", bool(np.all(np.isfinite(np.asarray(p, dtype=float)))), "predict:non-finite-forecast:" + spec[0],
-              "non-finite forecast for finite data", got=np.asarray(p, dtype=float).tolist())
+    if not np.all(np.isfinite(np.asarray(p, dtype=float))) and _domain_exit(f, None if fh_in == "fit" else fh):
+        ctx.ambiguous += 1
+        ctx.tag("non-finite-forecast-forced-by-inverse-transform-domain")
+    else:
+        ctx.check("predict.finite", bool(np.all(np.isfinite(np.asarray(p, dtype=float)))), "predict:non-finite-forecast:" + spec[0],
+                  "non-finite forecast for finite data", got=np.asarray(p, dtype=float).tolist())
     # ---- absolute horizon gives the same forecast --------------------------------------------------
     fabs = ForecastingHorizon(exp_idx, is_relative=False)
     f2, p2 = fit_predict(y, fabs if fh_in in ("fit", "both") else None, ForecastingHorizon(exp_idx, is_relative=False) if fh_in in ("predict", "both") else None, "abs")
@@ -138,8 +166,12 @@ def run_case(case, ctx):
         e2 = [int(batch.index[-1]) + h for h in fh]
         ctx.check("predict.index", [int(v) for v in pu.index] == e2 and len(pu) == len(fh), "predict:index-after-update:" + spec[0],
                   "forecast after update not labelled from the new cutoff", got=[int(v) for v in pu.index], expected=e2, update_params=up)
-        ctx.check("predict.finite", bool(np.all(np.isfinite(np.asarray(pu, dtype=float)))), "predict:non-finite-forecast-after-update:" + spec[0],
-                  "non-finite forecast after update", got=np.asarray(pu, dtype=float).tolist(), update_params=up)
+        if not np.all(np.isfinite(np.asarray(pu, dtype=float))) and _domain_exit(f, fh):
+            ctx.ambiguous += 1
+            ctx.tag("non-finite-forecast-forced-by-inverse-transform-domain")
+        else:
+            ctx.check("predict.finite", bool(np.all(np.isfinite(np.asarray(pu, dtype=float)))), "predict:non-finite-forecast-after-update:" + spec[0],
+                      "non-finite forecast after update", got=np.asarray(pu, dtype=float).tolist(), update_params=up)
     if not case["updates"]:
         ctx.seen("cutoff.update", 0)
     ctx.event(forecaster=name, n=n, off=off, fh=fh, fh_in=fh_in, shift=k, updates=case["updates"], forecast=np.asarray(p).tolist()[:4])
